@@ -168,6 +168,52 @@ fn check_pattern_set(pattern: &str, expected: &CharSet, kind: &str) -> Result<()
     Ok(())
 }
 
+/// Two related classes in ONE scanner (first listed wins): the characters reported with the first
+/// token type must be the first set, those with the second type the second set minus the first.
+/// Catches classes that are only confused with each other when they meet in one scanner.
+fn check_pair_in_one_scanner(p0: &str, s0: &CharSet, p1: &str, s1: &CharSet) -> Result<(), Violation> {
+    let case = json!({"kind": "c08", "patterns": [p0, p1], "what": "two related classes in one scanner"});
+    let mode = scnr::ScannerMode::new(
+        "M",
+        vec![scnr::Pattern::new(p0.to_string(), 7), scnr::Pattern::new(p1.to_string(), 8)],
+        Vec::<(usize, usize)>::new(),
+    );
+    let r = sut(|| -> Result<(CharSet, CharSet), String> {
+        let sc = scnr::ScannerBuilder::new().add_scanner_mode(mode).build_uncached().map_err(|e| format!("build failed: {}", e))?;
+        let all = all_scalars();
+        let mut a = CharSet::empty();
+        let mut b = CharSet::empty();
+        for m in sc.find_iter(all) {
+            let c = all[m.start()..].chars().next().unwrap();
+            if m.end() - m.start() != c.len_utf8() {
+                return Err(format!("token {}..{} is not a single character", m.start(), m.end()));
+            }
+            match m.token_type() {
+                7 => a.set(c),
+                8 => b.set(c),
+                t => return Err(format!("unexpected token type {}", t)),
+            }
+        }
+        Ok((a, b))
+    });
+    let (a, b) = match r {
+        Err(p) => return Err(Violation::new(format!("panic for classes {:?}, {:?}: {}", p0, p1, p), case)),
+        Ok(Err(e)) => return Err(Violation::new(format!("classes {:?}, {:?}: {}", p0, p1, e), case)),
+        Ok(Ok(x)) => x,
+    };
+    if &a != s0 {
+        return Err(Violation::new(format!("in a scanner that also contains {:?}: {}", p1, describe_diff(p0, &a, s0)), case));
+    }
+    let mut exp1 = s1.clone();
+    for (w, x) in exp1.words.iter_mut().zip(s0.words.iter()) {
+        *w &= !x;
+    }
+    if b != exp1 {
+        return Err(Violation::new(format!("in a scanner that lists {:?} first: {}", p0, describe_diff(p1, &b, &exp1)), case));
+    }
+    Ok(())
+}
+
 pub fn c08_class_case(rng: &mut Rng, _i: u64, st: &mut Stats) -> CaseOutcome {
     let class = gen_class(rng, 0, st);
     let re = Re::Class(class.clone());
@@ -181,13 +227,60 @@ pub fn c08_class_case(rng: &mut Rng, _i: u64, st: &mut Stats) -> CaseOutcome {
     st.count(&format!("nesting_depth_{}", class.depth().min(4)));
     st.nontrivial(hash_of(&pattern));
     st.sample(json!({"class": pattern, "members": expected.count()}));
-    match check_pattern_set(&pattern, &expected, "generated class") {
-        Ok(()) => CaseOutcome::Ok,
-        Err(mut v) => {
-            v.case["class_ir"] = json!(class);
-            CaseOutcome::Violated(v)
+    if let Err(mut v) = check_pattern_set(&pattern, &expected, "generated class") {
+        v.case["class_ir"] = json!(class);
+        return CaseOutcome::Violated(v);
+    }
+    // the same class next to a close relative in one scanner (every third case)
+    if rng.chance(1, 3) {
+        let mut rel = class.clone();
+        match rng.below(3) {
+            0 => rel.neg = !rel.neg,
+            1 => {
+                // flip the polarity of the first named item
+                fn flip(cs: &mut CSet) -> bool {
+                    match cs {
+                        CSet::Union(items) => {
+                            for it in items.iter_mut() {
+                                match it {
+                                    Item::Perl(_, n) | Item::Ascii(_, n) | Item::Uni(_, n) => {
+                                        *n = !*n;
+                                        return true;
+                                    }
+                                    Item::Nested(c) => {
+                                        if flip(&mut c.set) {
+                                            return true;
+                                        }
+                                    }
+                                    _ => {}
+                                }
+                            }
+                            false
+                        }
+                        CSet::Bin(l, _, r) => flip(l) || flip(r),
+                    }
+                }
+                if !flip(&mut rel.set) {
+                    rel.neg = !rel.neg;
+                }
+            }
+            _ => rel = gen_class(rng, 0, &mut Stats::default()),
+        }
+        if print_parse_roundtrip_ok(&Re::Class(rel.clone())) && rel != class {
+            st.count("class_pairs_in_one_scanner");
+            let (p0, p1) = (pattern.clone(), rel.to_syntax());
+            let (s0, s1) = (expected.clone(), set_of_class(&rel));
+            let r = if rng.chance(1, 2) {
+                check_pair_in_one_scanner(&p0, &s0, &p1, &s1)
+            } else {
+                check_pair_in_one_scanner(&p1, &s1, &p0, &s0)
+            };
+            if let Err(v) = r {
+                return CaseOutcome::Violated(v);
+            }
         }
     }
+    CaseOutcome::Ok
 }
 
 pub fn c08_literal_case(rng: &mut Rng, _i: u64, st: &mut Stats) -> CaseOutcome {
@@ -266,6 +359,31 @@ fn fixed_statements(res: &mut RunResult) {
         check(pos, check_pattern_set(&format!("[{}]", pos), &observed_pos, "a named item contributes the set it denotes alone"));
         check(negp, check_pattern_set(&format!("[{}]", negp), &expected_neg, "negated named item inside brackets"));
         check(negp, check_pattern_set(&format!("[^{}]", pos), &expected_neg, "negated bracket around a named item"));
+    }
+    // a named item and its negation in ONE scanner, in both orders (top-level forms)
+    {
+        let mut pairs: Vec<(String, String)> = vec![
+            ("\\d".into(), "\\D".into()),
+            ("\\s".into(), "\\S".into()),
+            ("\\w".into(), "\\W".into()),
+        ];
+        for name in SUPPORTED_UNICODE {
+            if name.len() == 1 {
+                pairs.push((format!("\\p{}", name), format!("\\P{}", name)));
+            } else {
+                pairs.push((format!("\\p{{{}}}", name), format!("\\P{{{}}}", name)));
+            }
+        }
+        for k in ASCII_KINDS {
+            pairs.push((format!("[[:{}:]]", k.name()), format!("[[:^{}:]]", k.name())));
+        }
+        for (pos, neg) in pairs {
+            if let Ok(Ok(p)) = sut(|| scan_class_set(&pos)) {
+                let c = p.complement();
+                check(&pos, check_pair_in_one_scanner(&pos, &p, &neg, &c));
+                check(&neg, check_pair_in_one_scanner(&neg, &c, &pos, &p));
+            }
+        }
     }
     // every POSIX and supported Unicode item: negated form = complement of the positive form
     for k in ASCII_KINDS {
@@ -365,6 +483,7 @@ pub fn c08(tier: Tier) -> i32 {
     .floor("item_perl", 20)
     .floor("item_nested", 20)
     .floor("corpus_classes", 10)
+    .floor("class_pairs_in_one_scanner", 50)
     .extra("exhaustive_chars", json!(true))
     .extra("scalar_values_per_expression", json!(1_112_064))
     .assume("named items (\\d \\s \\w outside ASCII, POSIX and Unicode items) are judged compositionally: their absolute Unicode content is not part of the property");
